@@ -177,7 +177,8 @@ def gen_cases(family, tier):
     elif family == "const":
         paths = ["shader.wgsl", "sub/dir/shader.wgsl", "a b/sh ader.wgsl", "ünï/çödé.wgsl",
                  "we\"ird'name.wgsl", "with{brace}.wgsl", "back\\slash.wgsl", "../up.wgsl",
-                 "./dot/./x.wgsl", "tab\tname.wgsl", "#hash$.wgsl", "emoji😀.wgsl"]
+                 "./dot/./x.wgsl", "tab\tname.wgsl", "#hash$.wgsl", "emoji😀.wgsl", "", " ",
+                 "C:\\dir\\shader.wgsl", "newline\nin.wgsl"]
         for i in range(n):
             r = core.rng("const", i)
             spec = F.fam_const(r, i)
@@ -194,7 +195,7 @@ def gen_cases(family, tier):
         raise ValueError(family)
     for c in cases:
         for x in c.cfgs:
-            x["id"] = cfg_id(x["opt"]) + ("_inc" if x.get("include_path") else "")
+            x["id"] = cfg_id(x["opt"]) + ("_inc" if x.get("include_path") is not None else "")
     return cases
 
 
@@ -846,7 +847,7 @@ def _build_campaign(family, tier, d):
             j = {"id": "%s|%s" % (c.id, x["id"]), "source": c.wgsl, "opt": x["opt"],
                  "out": os.path.join(x["dir"], "m.rs"), "inv": True, "canon": True,
                  "canon_nosrc": family == "const", "proj": family == "struct"}
-            if x.get("include_path"):
+            if x.get("include_path") is not None:
                 j["include_path"] = x["include_path"]
             jobs.append(j)
         jobs.append({"id": "%s|ref" % c.id, "source": c.wgsl, "opt": {}, "ref": True,
@@ -880,7 +881,7 @@ def _build_campaign(family, tier, d):
             if g.get("result") != "ok":
                 continue
             mp = os.path.join(x["dir"], "m.rs")
-            if x.get("include_path"):
+            if x.get("include_path"):  # ("" names the directory itself: nothing to create)
                 # the included file must exist relative to the module for it to compile
                 ip = os.path.normpath(os.path.join(x["dir"], x["include_path"]))
                 if ip.startswith(d) and "\0" not in ip:
@@ -888,6 +889,7 @@ def _build_campaign(family, tier, d):
                         os.makedirs(os.path.dirname(ip), exist_ok=True)
                         with open(ip, "w", newline="") as f:
                             f.write(c.wgsl)
+                        x["include_file_in_place"] = True
                     except OSError:
                         pass
             group = [(x["mod"], mp, "module", c.id, x["id"], "")]
@@ -906,7 +908,11 @@ def _build_campaign(family, tier, d):
                 group.append(("p_%s_%s_%s" % (pname, ident(c.id), ident(x["id"])), pp, "probe",
                               c.id, x["id"], pname))
             mods.append(group)
+    # many small crates rather than few huge ones: rustc's memory grows with crate size (a
+    # shard of ~800 derive-heavy modules needs > 5 GB) and cargo runs NCPU of them at once
     nshards = max(1, min(core.NCPU, len(mods) // 6 or 1))
+    if len(mods) > core.NCPU * 100:
+        nshards = (len(mods) + 99) // 100
     shard_mods = {i: [] for i in range(nshards)}
     for k, group in enumerate(mods):
         shard_mods[k % nshards] += group
@@ -1055,3 +1061,18 @@ def usable(camp, fam_prop_probe):
             if not camp.module_ok(c.id, x["id"]):
                 continue
             yield c, x
+
+
+PERMITTED_MSG = ("derive(Pod) was applied to a type with padding", "does not match WGSL")
+
+
+def unexpected_rejection(camp, cid, cfgid):
+    """diagnostics of a module rustc rejected for a reason other than the two permitted ones
+    (the tool's layout assertions, bytemuck's padding check); [] if accepted or permitted"""
+    r = camp.rustc.get("%s/%s/m.rs" % (cid, cfgid))
+    if not r or r.get("accepted"):
+        return []
+    bad = [d for d in r.get("diags", []) if not any(p in (d.get("message") or "")
+                                                    for p in PERMITTED_MSG)
+           and not (d.get("code") == "E0512")]
+    return bad
